@@ -9,7 +9,7 @@ from odxgen import values as V
 ID = "C01"
 # LEAN_TARGETS / THEOREMS: filled in by the author of lean/OdxVerif/Model/Codec.lean + Props/C01.lean
 # (planned: OdxVerif.Props.C01, theorems OdxVerif.Codec.C01_roundtrip[_partial], …)
-LEAN_TARGETS = ['OdxVerif.Props.C01', 'OdxVerif.Props.C01Fields']
+LEAN_TARGETS = ['OdxVerif.Props.C01', 'OdxVerif.Props.C01Fields', 'OdxVerif.Props.C01Nested']
 DRIVERS = ["drv_codec"]
 THEOREMS = ["OdxVerif.Codec." + t for t in ['C01_roundtrip_struct', 'C01_roundtrip_mux', 'C01_mux_default_key', 'MuxLeaf.sel_of_case', 'MuxLeaf.sel_of_default', 'MuxLeaf.encode_eq', 'MuxLeaf.decode_eq', 'C01_roundtrip_flat', 'C01_roundtrip_partial', 'C01_frame', 'tree_roundtrip', 'flat_core', 'Tree.encode_eq', 'Tree.decode_eq', 'Trees.good',
                                             # field tier (Props/C01Fields.lean, Proofs/FieldTier*.lean)
@@ -18,6 +18,14 @@ THEOREMS = ["OdxVerif.Codec." + t for t in ['C01_roundtrip_struct', 'C01_roundtr
                                             'Good.advancing',
                                             'C01_roundtrip_fields_eop', 'fitems_eop_roundtrip_msg', 'EopLeaf.encode_eq', 'EopLeaf.decode_eq', 'decodeToEnd_eq',
                                             'GItems.decPre_intro',
+                                            # nested tier (Props/C01Nested.lean, Proofs/Comp*.lean): compositional components
+                                            'C01_roundtrip_nested', 'described_roundtrip_msg', 'Described.ok', 'comps_roundtrip_msg',
+                                            'comps_roundtrip_msg_pre', 'dcomp_roundtrip_msg', 'DComp.struct_ok', 'Comp.ofValue_ok',
+                                            'Comp.ofObjValue_ok', 'Comp.ofObjConst_ok', 'Comp.ofGItem_ok', 'DComp.staticField_ok',
+                                            'DComp.dynLenField_ok', 'DComp.eopField_ok', 'DComp.mux_ok', 'Comp.withDefault_ok',
+                                            'Comp.ofObjDefault_ok', 'Comp.ofObjPhysConst_ok', 'Comps.encode_eq', 'Comps.decode_eq',
+                                            'Comps.decPre_intro', 'exNested_described', 'C01_roundtrip_nested_pre', 'Comp.reserved_ok',
+                                            'Comp.nrcConst_ok', 'Tree.toComp_ok', 'exNrc_ok', 'exNrc_pre',
                                                  'encodeParam_obj', 'decodeParam_obj', 'encodeParam_const_obj', 'decodeParam_const_obj',
                                                  'Obj.raw_decodes', 'Obj.canon_decodes']] + \
            ["OdxVerif.Text." + t for t in ['utf8_decode_encode', 'utf8_encode_decode', 'f32to64_f64to32', 'f64to32_f32to64',
